@@ -14,15 +14,29 @@ use vkit::{json, ledger, Value};
 struct CountingWaker {
     wakes: AtomicUsize,
 }
+/// number of caller wakers (Waker!Orig)
+const NORIG: usize = 2;
 /// what the original saw of its own strong count at the instant it was last woken (usize::MAX: not woken)
 static SEEN_AT_WAKE: AtomicUsize = AtomicUsize::new(usize::MAX);
+/// which caller waker was woken last (index), found by address
+static SEEN_WHICH: AtomicUsize = AtomicUsize::new(0);
+static ORIG_ADDR: [AtomicUsize; NORIG] = [AtomicUsize::new(0), AtomicUsize::new(0)];
+fn note_which(p: *const CountingWaker) {
+    for (i, a) in ORIG_ADDR.iter().enumerate() {
+        if a.load(SeqCst) == p as usize {
+            SEEN_WHICH.store(i, SeqCst);
+        }
+    }
+}
 impl Wake for CountingWaker {
     fn wake(self: Arc<Self>) {
         // by value: the reference that carries the wake is still alive here
+        note_which(Arc::as_ptr(&self));
         SEEN_AT_WAKE.store(Arc::strong_count(&self), SeqCst);
         self.wakes.fetch_add(1, SeqCst);
     }
     fn wake_by_ref(self: &Arc<Self>) {
+        note_which(Arc::as_ptr(self));
         SEEN_AT_WAKE.store(Arc::strong_count(self), SeqCst);
         self.wakes.fetch_add(1, SeqCst);
     }
@@ -151,18 +165,18 @@ struct Worker {
 
 pub struct World {
     sh: Arc<Shared>,
-    orig: Arc<CountingWaker>,
+    origs: Vec<Arc<CountingWaker>>,
     _extras: Vec<Arc<CountingWaker>>,
-    base: usize,
+    bases: Vec<usize>,
     workers: Vec<Worker>,
     nfw: usize,
 }
 
 impl World {
     pub fn new(nfw: usize, nthreads: usize, flavour: &str) -> Self {
-        let orig = Arc::new(CountingWaker { wakes: AtomicUsize::new(0) });
+        let origs: Vec<Arc<CountingWaker>> = (0..NORIG).map(|_| Arc::new(CountingWaker { wakes: AtomicUsize::new(0) })).collect();
         // extra references: a double release then shows as a *count*, not as a use after free
-        let extras: Vec<_> = (0..64).map(|_| orig.clone()).collect();
+        let extras: Vec<_> = (0..64 * NORIG).map(|i| origs[i % NORIG].clone()).collect();
         let (tx1, wrx1) = channel::<Option<Value>>();
         let (wtx1, rx1) = channel::<Reply>();
         let sh = Arc::new(Shared {
@@ -175,7 +189,7 @@ impl World {
         // thread 1: the poller
         {
             let sh2 = sh.clone();
-            let caller_waker = Waker::from(orig.clone());
+            let caller_wakers: Vec<Waker> = origs.iter().map(|o| Waker::from(o.clone())).collect();
             let mut obj = match flavour {
                 "future" => Obj::Fut(trait_obj!(ScriptFut(sh.clone()) as Future)),
                 "stream" => Obj::Stream(trait_obj!(ScriptStream(sh.clone()) as Stream)),
@@ -189,7 +203,9 @@ impl World {
                         _ => break,
                     };
                     if e["op"] == "PollBegin" {
-                        let mut cx = Context::from_waker(&caller_waker);
+                        // successive polls may come with different wakers
+                        let which = e["o"].as_u64().unwrap_or(1) as usize - 1;
+                        let mut cx = Context::from_waker(&caller_wakers[which]);
                         // the scripted body acks PollBegin from inside and returns on PollEnd
                         let r = vkit::catch(|| match &mut obj {
                             Obj::Fut(o) => {
@@ -215,7 +231,7 @@ impl World {
                     }
                 }
                 drop(obj);
-                drop(caller_waker);
+                drop(caller_wakers);
             });
             workers.push(Worker { tx: tx1, rx: rx1, handle: Some(handle) });
         }
@@ -233,8 +249,11 @@ impl World {
             });
             workers.push(Worker { tx, rx, handle: Some(handle) });
         }
-        let base = Arc::strong_count(&orig);
-        World { sh, orig, _extras: extras, base, workers, nfw }
+        let bases: Vec<usize> = origs.iter().map(Arc::strong_count).collect();
+        for (i, o) in origs.iter().enumerate() {
+            ORIG_ADDR[i].store(Arc::as_ptr(o) as usize, SeqCst);
+        }
+        World { sh, origs, _extras: extras, bases, workers, nfw }
     }
 
     pub fn apply(&mut self, e: &Value) -> Reply {
@@ -269,11 +288,13 @@ impl World {
             .collect();
         let seen = match SEEN_AT_WAKE.load(SeqCst) {
             usize::MAX => -1,
-            n => n as i64 - self.base as i64,
+            n => n as i64 - self.bases[SEEN_WHICH.load(SeqCst)] as i64,
         };
-        json!({"ocount": Arc::strong_count(&self.orig) as i64 - self.base as i64,
+        let ocount: Vec<i64> = (0..NORIG).map(|o| Arc::strong_count(&self.origs[o]) as i64 - self.bases[o] as i64).collect();
+        let owakes: Vec<usize> = self.origs.iter().map(|o| o.wakes.load(SeqCst)).collect();
+        json!({"ocount": ocount,
                "seen": seen,
-               "owakes": self.orig.wakes.load(SeqCst),
+               "owakes": owakes,
                "inPoll": self.sh.in_poll.load(SeqCst),
                "fw": fw})
     }
@@ -291,23 +312,25 @@ impl World {
                 let _ = self.apply(&json!({"op":"FDrop","t":1,"w":w+1}));
             }
         }
-        let count_after = Arc::strong_count(&self.orig);
+        let counts_after: Vec<usize> = self.origs.iter().map(Arc::strong_count).collect();
         for w in self.workers.iter_mut() {
             let _ = w.tx.send(None);
             if let Some(h) = w.handle.take() {
                 let _ = h.join();
             }
         }
-        if count_after != self.base {
+        if counts_after != self.bases {
             // the reference count is off: letting the remaining references go would free the
             // waker too early (or never); keep the evidence, leak the rest
             let extras = std::mem::take(&mut self._extras);
             std::mem::forget(extras);
-            std::mem::forget(self.orig.clone());
-            std::mem::forget(self.orig.clone());
+            for o in &self.origs {
+                std::mem::forget(o.clone());
+                std::mem::forget(o.clone());
+            }
             return Some(format!(
-                "original waker's reference count is {} after every foreign waker is gone (base {})",
-                count_after, self.base
+                "original wakers' reference counts are {:?} after every foreign waker is gone (base {:?})",
+                counts_after, self.bases
             ));
         }
         let s = ledger::snap();
@@ -389,7 +412,7 @@ fn trace(out: &str, seed: u64, events: usize, nfw: usize, nthreads: usize) {
                     }
                 }
             } else {
-                cand.push(json!({"op":"PollBegin"}));
+                cand.push(json!({"op":"PollBegin","o": 1 + rng.below(NORIG)}));
             }
             for _ in 0..3 {
                 if used.is_empty() {
